@@ -277,6 +277,69 @@ def check_common(F, rep):
                                     and rt.args[1].op == "proj" and rt.args[1].args[1][2] == "p_type":
                                 if src_ok and {"p_offset", "p_filesz"} <= names and "p_memsz" not in names:
                                     ok = True
+        if not ok:
+            # value-based: some success outcome holds a Dyn table built over FILE(h.p_offset, h.p_offset + h.p_filesz) of
+            # h = the first program header with p_type == PT_DYNAMIC, wherever the construction is written (a private helper,
+            # `segment_data(h)`, ...)
+            from .c07 import canon
+            H = ("FIRST", "phdr", "p_type", C(PT))
+            want_buf = ("FILE", F_(H, "p_offset"), prov.ADD(F_(H, "p_offset"), F_(H, "p_filesz")))
+            ehdr_ = F_(P(1), "ehdr")
+            for v, st in ok_outcomes(qa):
+                v = qa.simp(v, st.facts)
+                for x in v.subterms():
+                    if x.op == "agg" and x.args[1] == "parse::ParsingTable" and len(x.args[4]) >= 3:
+                        cx = canon(F, norm(x))
+                        if cx[0] == "agg" and cx[3][0] == F_(ehdr_, "endianness") and cx[3][1] == F_(ehdr_, "class") and cx[3][2] == want_buf:
+                            ok = True
+        if q.endswith("find_common_data"):
+            # ... and the fallback is attempted only when the scan stored no SHT_DYNAMIC table: the search of the program headers
+            # (here or in a private helper) sits on a path on which `result.dynamic` has been tested to be None.  Otherwise an
+            # unreadable PT_DYNAMIC segment fails find_common_data for a file whose .dynamic section is perfectly good.
+            from ..engine import State, program as _program
+            prog_ = _program(F)
+
+            def _searches_phdrs(fn_, depth=0):
+                an_ = analyze_fn(F, fn_)
+                for c_ in an_.calls():
+                    if c_.declared_norm == "iter::Iterator::find" and c_.args[1].op == "agg":
+                        cf_ = F.fn(c_.args[1].args[1]) if isinstance(c_.args[1].args[1], str) else None
+                        rt_ = analyze_fn(F, cf_).ret_term() if cf_ else None
+                        if rt_ is not None and "p_type" in pp(rt_):
+                            return True
+                    lf_ = prog_.local_fn(c_.callee)
+                    if lf_ is not None and depth < 2 and not prog_.known_name(lf_) and lf_["kind"] != "Closure" and _searches_phdrs(lf_, depth + 1):
+                        return True
+                return False
+            res_locals = [i for i, ty in qa.local_ty.items() if "CommonElfData" in nm(ty or "") and not nm(ty or "").startswith(("&", "result::", "core::result::"))]
+            di = [i for i, fd in enumerate(F.adts["elf_bytes::CommonElfData"]["variants"][0]["fields"]) if fd["name"] == "dynamic"]
+            sites = []
+            for c_ in qa.calls():
+                if c_.block not in qa.entry:
+                    continue
+                direct = False
+                if c_.declared_norm == "iter::Iterator::find" and c_.args[1].op == "agg":
+                    cf_ = F.fn(c_.args[1].args[1]) if isinstance(c_.args[1].args[1], str) else None
+                    rt_ = analyze_fn(F, cf_).ret_term() if cf_ else None
+                    direct = rt_ is not None and "p_type" in pp(rt_)
+                lf_ = prog_.local_fn(c_.callee)
+                via = lf_ is not None and not prog_.known_name(lf_) and lf_["kind"] != "Closure" and _searches_phdrs(lf_)
+                if direct or via:
+                    sites.append(c_)
+            guarded = bool(sites) and bool(di)
+            for c_ in sites:
+                stc = State(qa.exit_env.get(c_.block, {}), c_.facts)
+                okc = False
+                for li in res_locals:
+                    cur = qa.read(stc, (("L", li), (("f", di[0], "dynamic"),)))
+                    base_, names_ = qa.norm_var(cur, ["None", "Some"])
+                    if (base_ is None and names_ == 0) or (base_ is not None and ("var", base_, "None") in c_.facts):
+                        okc = True
+                guarded = guarded and okc
+            rep.require(guarded, "common-data", "%s:pt-dynamic-only-as-fallback" % q, wh(F.fn(q)["span"]),
+                        "the program headers are searched only once `result.dynamic` is known to be None",
+                        "%s looks for the PT_DYNAMIC segment on a path where the section scan may already have stored a dynamic table (%d sites): "
+                        "a failing segment read then fails the call although the .dynamic section was found" % (q, len(sites)))
         rep.require(ok, "common-data", "%s:pt-dynamic" % q, wh(F.fn(q)["span"]), "fallback: DynamicTable over the file range of the first PT_DYNAMIC segment",
                     "%s does not build the PT_DYNAMIC fallback table over data[p_offset .. p_offset+p_filesz] of the first PT_DYNAMIC segment" % q)
 
